@@ -262,7 +262,7 @@ static bool splitsLiveChannelId(const uint8_t *st, const unsigned n, const unsig
 // ---------------------------------------------------------------------------------------------- concurrent helpers
 // Two requests outstanding on one session with channel IDs (idA, idB); the helper answers with two lines whose channel-ID
 // digits are symbolic, i.e. in either order, with a duplicated ID, with an unknown ID ...
-static void concurrent(const uint64_t idA, const uint64_t idB, const unsigned idDigits1, const unsigned idDigits2)
+static void concurrent(const uint64_t idA, const uint64_t idB, const unsigned idDigits1, const unsigned idDigits2, const char *idPrefix1 = nullptr)
 {
     startHelper(16);
     const uint64_t ids[NREQ] = {idA, idB};
@@ -281,6 +281,7 @@ static void concurrent(const uint64_t idA, const uint64_t idB, const unsigned id
     uint8_t tag[2];
     const unsigned nd[2] = {idDigits1, idDigits2};
     for (unsigned r = 0; r < 2; ++r) {
+        if (r == 0 && idPrefix1) for (const char *c = idPrefix1; *c; ++c) st[n++] = (uint8_t)*c;   // concrete leading digits of the first line's channel-ID
         for (unsigned d = 0; d < nd[r]; ++d) { const uint8_t c = vf_nondet_u8("digit"); vf_assume(c >= '0' && c <= '9'); st[n++] = c; }
         st[n++] = ' ';
         st[n++] = 'r';
@@ -341,6 +342,11 @@ static void concurrent(const uint64_t idA, const uint64_t idB, const unsigned id
 extern "C" void c47_ids_1_2(void) { concurrent(1, 2, 1, 1); }
 extern "C" void c47_ids_9_10(void) { concurrent(9, 10, (unsigned)vf_concretize(vf_range(1, 2, "nd1")), (unsigned)vf_concretize(vf_range(1, 2, "nd2"))); }
 extern "C" void c47_ids_1_12(void) { concurrent(1, 12, (unsigned)vf_concretize(vf_range(1, 2, "nd1")), (unsigned)vf_concretize(vf_range(1, 2, "nd2"))); }
+// channel-IDs beyond 32 bits: "42949672dd" = 4294967200..4294967299 (2^32 + 1 = 4294967297 is congruent to 1 modulo 2^32):
+// (a) a reply carrying such an ID answers nobody when requests 1 and 2 are outstanding; (b) a request whose own channel ID is
+// 2^32 + 1 (the ID counter is 64 bits wide) is answered by the line that carries exactly that ID
+extern "C" void c47_wide_reply_id(void) { concurrent(1, 2, 2, 1, "42949672"); }
+extern "C" void c47_big_request_id(void) { concurrent(4294967297ULL, 2, 2, 1, "42949672"); }
 extern "C" void c47_ids_5_50(void) { concurrent(5, 50, (unsigned)vf_concretize(vf_range(1, 2, "nd1")), (unsigned)vf_concretize(vf_range(1, 2, "nd2"))); }
 
 // ---------------------------------------------------------------------------------------------- non-concurrent helpers
